@@ -4,6 +4,7 @@
   tables that the interpreter proofs consume (all by `decide` over `Gen.VmFlags`).
 -/
 import Aqv.Model.Vm
+set_option linter.unusedSimpArgs false
 namespace Aqv.Vm
 open Aqv.Gen.VmFlags
 
